@@ -95,6 +95,27 @@ func putForeignItem(f *fakemc.Server, key string, value []byte, flags uint32, fp
 	}
 }
 
+// c16Key is the key of length kl that the enumeration uses.  What a key
+// consists of must not matter to the layout (the handler is reached by
+// binary-protocol keys of arbitrary bytes): blanks, control bytes, NUL, 0xff
+// and percent signs in three of every five key lengths.
+func c16Key(kl int) string {
+	key := strings.Repeat("k", kl-1) + "z"
+	if kl > 3 {
+		key = fmt.Sprintf("%03d", kl) + strings.Repeat("k", kl-3)
+	}
+	if special := [][]byte{nil, {' ', '\t'}, nil, {0x00, 0xff}, {'%', 0x7f}}[kl%5]; special != nil {
+		kb := []byte(key)
+		kb[len(kb)-1] = special[0]
+		kb[len(kb)/2] = special[1]
+		if len(kb) > 2 {
+			kb[0] = special[0]
+		}
+		key = string(kb)
+	}
+	return key
+}
+
 func TestC16(t *testing.T) {
 	rec := evid.For("C16")
 	shard, shards := evid.Shard()
@@ -103,10 +124,7 @@ func TestC16(t *testing.T) {
 		if kl%shards != shard {
 			continue
 		}
-		key := strings.Repeat("k", kl-1) + "z"
-		if kl > 3 {
-			key = fmt.Sprintf("%03d", kl) + strings.Repeat("k", kl-3)
-		}
+		key := c16Key(kl)
 		p := chunkPayload(kl)
 		lens := []int{0, 1, p - 1, p, p + 1, 2*p - 1, 2 * p, 2*p + 1, 3*p + 1, 10 * p}
 		switch kl {
@@ -275,7 +293,7 @@ func TestC16Replay(t *testing.T) {
 	if _, err := evid.LoadReplay(path, &c); err != nil {
 		t.Fatal(err)
 	}
-	key := strings.Repeat("k", c.Keylen)
+	key := c16Key(c.Keylen)
 	h, f := newChunked()
 	f.LogValues = true
 	val := shapeValue(mkValue(uint32(c.Valuelen*7+c.Keylen), c.Valuelen), []int{0, 0, 1, 0, 2, 0, 3, 0, 4}[(c.Keylen*3+c.Valuelen+len(c.Path))%9])
